@@ -1,3 +1,7 @@
+/-
+  C14 helper lemmas, part 10: the information API (digestauth.c) depends only on the meaning of the
+  parameters; specification predicates `canon`, `Elem.infoWf`, `eraseCnl`.
+-/
 import Mhd.Proofs.AuthSem
 namespace Mhd.Auth
 open Mhd.Gen.Auth
